@@ -21,7 +21,7 @@ def applyKw (env : Env) (impl : FmtImpl) (cfg : Cfg) (rec : Rec) (f : KwFn) (v i
   | .multipleOf => kwMultipleOf cfg v inst
   | .minItems => kwMinItems cfg v inst
   | .maxItems => kwMaxItems cfg v inst
-  | .uniqueItems => kwUniqueItems env cfg v inst
+  | .uniqueItems => kwUniqueItems cfg v inst
   | .pattern => kwPattern env cfg v inst
   | .format => kwFormat env impl cfg v inst
   | .minLength => kwMinLength cfg v inst
